@@ -516,7 +516,7 @@ func TestVerifC35Parse(t *testing.T) {
 			defer wg.Done()
 			start, myDeaths := 0, 0
 			for round := 0; start < len(jobs); round++ {
-				run := c35RunChild(dir, fmt.Sprintf("%d-%d", sh, round), inPath, start, sh, shards, false, c35Stall, 0)
+				run := c35RunChild(dir, fmt.Sprintf("%d-%d", sh, round), inPath, start, sh, shards, false, c35Stall, 0, 0)
 				record(run.results)
 				if run.done && run.err == nil {
 					return
@@ -540,7 +540,7 @@ func TestVerifC35Parse(t *testing.T) {
 					mu.Unlock()
 					return
 				}
-				again := c35RunChild(dir, fmt.Sprintf("%d-%d-confirm", sh, round), onePath, 0, 0, 1, true, 0, c35ConfirmLimit)
+				again := c35RunChild(dir, fmt.Sprintf("%d-%d-confirm", sh, round), onePath, 0, 0, 1, true, 0, c35ConfirmLimit, c35HangCPU)
 				replay := map[string]any{"texts_hex": c35Hex(job.Texts), "first_text": string(job.Texts[0]), "job_kind": job.Kind, "exit": fmt.Sprint(run.err), "stderr_tail": c35Tail(run.stderr),
 					"rerun_alone_exit": fmt.Sprint(again.err), "rerun_alone_hung": again.hung, "rerun_alone_cpu_s": again.cpu.Seconds(), "rerun_alone_stderr_tail": c35Tail(again.stderr)}
 				switch {
@@ -765,16 +765,38 @@ func TestVerifC35Parse(t *testing.T) {
 }
 
 
-// Watchdogs of the crash box. c35Stall: a child whose progress index does not
-// move for this long is suspected to hang (a Parse call on < 64 KiB takes
-// milliseconds). The suspicion alone decides nothing: the job is re-run alone,
-// and only a process that then burns c35HangCPU of CPU time (not wall time)
-// without finishing counts as a hang.
+// Watchdogs of the crash box. A child whose progress index has not moved while
+// the process consumed c35StallCPU of CPU time (or for c35Stall of wall time) is
+// suspected to hang: a Parse call on < 64 KiB takes milliseconds. The suspicion
+// alone decides nothing: the job is re-run alone in a fresh process, and only if
+// that process burns c35HangCPU of CPU time (read from /proc, not wall time)
+// without finishing the single job does it count as a hang.
 const (
 	c35Stall        = 150 * time.Second
-	c35ConfirmLimit = 420 * time.Second
+	c35StallCPU     = 30 * time.Second
+	c35ConfirmLimit = 900 * time.Second
 	c35HangCPU      = 60 * time.Second
 )
+
+// c35ProcCPU: user+system CPU time of a running process (Linux /proc; 0 if unknown).
+func c35ProcCPU(pid int) time.Duration {
+	b, err := os.ReadFile(fmt.Sprintf("/proc/%d/stat", pid))
+	if err != nil {
+		return 0
+	}
+	s := string(b)
+	i := strings.LastIndexByte(s, ')') // the command name may contain blanks
+	if i < 0 {
+		return 0
+	}
+	f := strings.Fields(s[i+1:])
+	if len(f) < 13 {
+		return 0
+	}
+	ut, _ := strconv.ParseInt(f[11], 10, 64) // field 14 of the line
+	st, _ := strconv.ParseInt(f[12], 10, 64) // field 15
+	return time.Duration(ut+st) * (time.Second / 100)
+}
 
 type c35ChildRun struct {
 	done    bool  // the end marker was written
@@ -788,7 +810,7 @@ type c35ChildRun struct {
 
 // c35RunChild runs one crash-box process over jobs[start:] of residue class
 // shard (only: job start alone) and collects what it wrote.
-func c35RunChild(dir, tag, inPath string, start, shard, nshards int, only bool, stall, limit time.Duration) c35ChildRun {
+func c35RunChild(dir, tag, inPath string, start, shard, nshards int, only bool, stall, limit, cpuLimit time.Duration) c35ChildRun {
 	outPath := filepath.Join(dir, "out-"+tag+".jsonl")
 	progPath := filepath.Join(dir, "progress-"+tag)
 	cmd := exec.Command(os.Args[0], "-test.run=^TestVerifC35Child$", "-test.timeout=60m")
@@ -808,6 +830,7 @@ func c35RunChild(dir, tag, inPath string, start, shard, nshards int, only bool, 
 	waitCh := make(chan error, 1)
 	go func() { waitCh <- cmd.Wait() }()
 	begin, lastChange, last := time.Now(), time.Now(), ""
+	var cpuAtChange time.Duration
 	tick := time.NewTicker(500 * time.Millisecond)
 	defer tick.Stop()
 wait:
@@ -818,10 +841,14 @@ wait:
 			break wait
 		case <-tick.C:
 			pb, _ := os.ReadFile(progPath)
+			cpu := c35ProcCPU(cmd.Process.Pid)
 			if cur := string(pb); cur != last {
-				last, lastChange = cur, time.Now()
+				last, lastChange, cpuAtChange = cur, time.Now(), cpu
 			}
-			stalled := stall > 0 && last != "" && time.Since(lastChange) > stall
+			stalled := stall > 0 && last != "" && (time.Since(lastChange) > stall || cpu-cpuAtChange > c35StallCPU)
+			if cpuLimit > 0 && cpu >= cpuLimit {
+				stalled = true
+			}
 			neverStarted := last == "" && time.Since(begin) > 20*time.Minute
 			overLimit := limit > 0 && time.Since(begin) > limit
 			if stalled || neverStarted || overLimit {
